@@ -10,11 +10,14 @@ mod consts_gen;
 mod eng_addr;
 mod eng_codec;
 mod eng_mach;
+mod eng_map;
 mod eng_pte;
 mod eng_tbl;
 mod gen_addr;
 mod gen_mach;
+mod gen_map;
 mod gen_tbl;
+mod physmem;
 mod softcpu;
 mod util;
 
@@ -29,7 +32,9 @@ pub fn msr_number(m: &x86_64::registers::model_specific::Msr) -> u64 {
 
 fn main() {
     let args: Vec<String> = std::env::args().collect();
-    silence_panics();
+    if args.get(1).map(|s| s.as_str()) != Some("gen") {
+        silence_panics();
+    }
     match args.get(1).map(|s| s.as_str()) {
         Some("run") => {
             let eng = args[2].as_str();
@@ -39,6 +44,8 @@ fn main() {
                 "mach" => eng_mach::run,
                 "tbl" => eng_tbl::run,
                 "codec" => eng_codec::run,
+                "map" => eng_map::run,
+                "tree" => eng_map::run_projected,
                 _ => panic!("unknown engine"),
             };
             for_each_line(|l| fmt_out(&f(&parse_line(l))));
@@ -54,6 +61,7 @@ fn main() {
                 "C03" | "C04" | "C05" | "C06" | "C07" => gen_addr::gen(prop, seed, thorough, &mut out),
                 "C08" | "C12" | "C14" | "C15" | "C19" => gen_tbl::gen(prop, seed, thorough, &mut out),
                 "C11" | "C16" | "C17" | "C18" => gen_mach::gen(prop, seed, thorough, &mut out),
+                "C01" | "C02" | "C09" | "C10" => gen_map::gen(prop, seed, thorough, &mut out),
                 _ => panic!("unknown property"),
             }
         }
@@ -63,6 +71,8 @@ fn main() {
                 "C03" | "C04" | "C05" | "C06" | "C07" => gen_addr::oracle(prop),
                 "C08" | "C12" | "C14" | "C15" | "C19" => gen_tbl::oracle(prop),
                 "C11" | "C16" | "C17" | "C18" => gen_mach::oracle(prop),
+                "C01" | "C02" | "C09" | "C10" => gen_map::oracle(prop),
+                "C11T" => gen_map::oracle("C11"),
                 _ => panic!("unknown property"),
             }
         }
